@@ -9,6 +9,7 @@
 package websocket
 
 import (
+	"bytes"
 	"context"
 	"encoding/hex"
 	"encoding/json"
@@ -224,7 +225,27 @@ func vhwsDoOps(s vhwsSide, seed int, ops []vhwsOp, off *int, out *vhwsDirOut, pa
 
 // the reader of one direction. untilPhase1: stop as soon as phase 1 has been consumed (the side that
 // will perform the terminal ops does not read after that).
+func vhwsExpected(d vhwsDir) []byte {
+	var b []byte
+	off := 0
+	for _, ops := range [][]vhwsOp{d.Ops, d.Tail} {
+		for _, o := range ops {
+			n := 0
+			switch o.Op {
+			case "bin":
+				n = o.N
+			case "cut":
+				n = o.M
+			}
+			b = append(b, vhwsFill(d.Seed, off, n)...)
+			off += n
+		}
+	}
+	return b
+}
+
 func vhwsReader(c *Conn, d vhwsDir, untilPhase1 bool, out *vhwsDirOut, phase1 chan<- struct{}) {
+	expected := vhwsExpected(d)
 	p1Bytes, p1Texts := vhwsCountData(d.Ops)
 	tBytes, tTexts := vhwsCountData(d.Tail)
 	allTexts := p1Texts + tTexts
@@ -253,7 +274,7 @@ func vhwsReader(c *Conn, d vhwsDir, untilPhase1 bool, out *vhwsDirOut, phase1 ch
 	}
 	for i := 0; i < maxReads; i++ {
 		buf := make([]byte, bufs[i%len(bufs)])
-		_ = c.SetReadDeadline(time.Now().Add(10 * time.Second))
+		_ = c.SetReadDeadline(time.Now().Add(6 * time.Second))
 		n, err := c.Read(buf)
 		cls := vhwsClass(err)
 		if n < 0 || n > len(buf) {
@@ -261,6 +282,11 @@ func vhwsReader(c *Conn, d vhwsDir, untilPhase1 bool, out *vhwsDirOut, phase1 ch
 			return
 		}
 		out.Reads = append(out.Reads, vhwsRead{B: len(buf), N: n, E: cls, D: hex.EncodeToString(buf[:n])})
+		if got+n > len(expected) || !bytes.Equal(buf[:n], expected[got:got+n]) {
+			// the stream has already diverged from what was written: nothing more to learn, do not
+			// wait for bytes that will never come (the python monitor judges the log, not this test)
+			return
+		}
 		got += n
 		switch cls {
 		case "nil":
@@ -356,7 +382,7 @@ func vhwsRunCase(c vhwsCase) (out vhwsCaseOut) {
 		}()
 	}
 	// barrier: both phase-1 streams consumed (or given up), both phase-1 writers done
-	deadline := time.After(12 * time.Second)
+	deadline := time.After(9 * time.Second)
 	for d := 0; d < 2; d++ {
 		select {
 		case <-phase1[d]:
